@@ -52,7 +52,7 @@ def program_strategy(draw, spec, max_actions=5, max_specs=3, decline_weight=1):
 
 @st.composite
 def market_settings(draw, name: str, vol_zero: Optional[bool] = None, ticks=TICKS, shares=True):
-    d = {"class": "Market", "tickSize": draw(st.sampled_from(ticks)), "marketPrice": draw(st.sampled_from(PRICES))}
+    d = {"class": draw(st.sampled_from(["Market", "Market", "Market", "VForwardingMarket"])), "tickSize": draw(st.sampled_from(ticks)), "marketPrice": draw(st.sampled_from(PRICES))}
     if shares:
         d["outstandingShares"] = draw(st.sampled_from([100, 200, 300, 1000, 12345]))
     zero = draw(st.booleans()) if vol_zero is None else vol_zero
